@@ -211,6 +211,11 @@ def check_array_content(ctx, m, tr, o, c, toks, views, trees, out):
             return
         elems = tr[1]
     vals, strs = av["v"], av["vs"]
+    if (du == "p" and na == "a" and entry == "a" and any(toks[x].startswith("H:") for x in vals) and not tok.startswith("H:")
+            and ctx.dist.get("header-dup reported", 0) < 3):
+        ctx.count("header-dup reported")
+        ctx.fail("header-dup", "array node %s: a header among the values: its container is serialized inside the header's "
+                 "object and once more as the next element" % idx, [c], [o])
     exp = []
     i = 0
     while i < len(vals):
@@ -364,6 +369,10 @@ def run(ctx):
         if not v:
             continue
         fs, ks, vs, has_rem = v["f"], v["ks"], v["vs"], v["remlen"] > 0
+        if du == "p" and na == "a" and any(toks[x].startswith("H:") for x in v["rem"]) and ctx.dist.get("header-dup reported", 0) < 3:
+            ctx.count("header-dup reported")
+            ctx.fail("header-dup", "node %s: a header inside the array part of a mixed container: its container is serialized "
+                     "inside the header's object and once more as the next element" % idx, [c], [o])
         kstr = [keystr(f[0], ks[i]) for i, f in enumerate(fs)]
         fail = lambda key, msg, exp=None: ctx.fail(key, "node %s %s: %s" % (idx, du + na, msg), [c], [o], exp)
         if du in "pg":
